@@ -25,6 +25,10 @@ class StepCap(Exception):
     pass
 
 
+class SpinLoop(Exception):
+    pass
+
+
 class HarnessError(Exception):
     pass
 
@@ -81,6 +85,10 @@ class Sim(object):
         self.line_stall = None       # (probability at a pre-emption point, max seconds): stall the thread there instead of yielding
         self.stalls = 0
         self.stalls_armed = True
+        self.spin_cap = 0
+        self._spin_only = set()
+        self._spin_step = -1
+        self._spin_lines = 0
         self.deep_stalls = None      # {function name: [[line offset, seconds, hits left], ...]}
         self.focus_stall = None      # (function name(s), probability per line, max seconds[, line offset in the function, max hits])
         self.focus_hits = 0
@@ -383,7 +391,7 @@ class Sim(object):
             while hasattr(chain[-1], '__wrapped__') and len(chain) < 5:
                 chain.append(chain[-1].__wrapped__)
             for g in chain:
-                code = getattr(g, '__code__', None)
+                code = g if type(g).__name__ == 'code' else getattr(g, '__code__', None)
                 if code is None and hasattr(g, '__func__'):
                     code = g.__func__.__code__
                 if code is None or code in self._line_codes:
@@ -391,9 +399,41 @@ class Sim(object):
                 mon.set_local_events(tool, code, mon.events.LINE)
                 self._line_codes.append(code)
 
+    def watch_spin(self, funcs, cap=400000):
+        """Line events in these functions only feed a spin guard: a thread that executes `cap` of their lines without the simulation
+        taking a single step in between is in a loop that can never end (nothing else runs meanwhile); SpinLoop is raised in it."""
+        mon = sys.monitoring
+        tool = mon.DEBUGGER_ID
+        if mon.get_tool(tool) is None:
+            mon.use_tool_id(tool, 'dsim')
+        mon.register_callback(tool, mon.events.LINE, self._on_line)
+        self.spin_cap = cap
+        for f in funcs:
+            while hasattr(f, '__wrapped__'):
+                f = f.__wrapped__
+            code = getattr(f, '__code__', None)
+            if code is None or code in self._line_codes:
+                continue
+            mon.set_local_events(tool, code, mon.events.LINE)
+            self._line_codes.append(code)
+            self._spin_only.add(code)
+
     def _on_line(self, code, lineno):
         t = self.running
-        if t is None or t.real_ident != _thread.get_ident() or t.no_preempt:
+        if t is None or t.real_ident != _thread.get_ident():
+            return
+        if self.spin_cap:
+            if self.steps != self._spin_step:
+                self._spin_step = self.steps
+                self._spin_lines = 0
+            else:
+                self._spin_lines += 1
+                if self._spin_lines > self.spin_cap:
+                    self._spin_lines = 0
+                    raise SpinLoop('%s executed %d lines of %s (line %d) without the simulation taking a step' % (t.name, self.spin_cap, code.co_name, lineno))
+            if code in self._spin_only:
+                return
+        if t.no_preempt:
             return
         self.line_count += 1
         if not self.stalls_armed:
